@@ -79,7 +79,7 @@ def check_scn(scn):
 
 
 def _check_scn(scn):
-    exact = not scn.get("ha")
+    exact = True   # the four Heikin-Ashi formulas are the same float operations in the same order: bit-for-bit
     st = {"prev": None, "void": False}
 
     def on_step(j, m, consumed):
@@ -245,6 +245,10 @@ def check_hexital_tfs(scn):
                 if st == j:
                     hx.add_indicator(EMA(period=2, timeframe=scn["tfs"][i]))
                     hx.calculate()
+            for st, op in (scn.get("maint") or []):
+                if st == j:      # maintenance aimed at EVERYTHING (no name): readings go and come back, the candles themselves stay
+                    getattr(hx, op)()
+                    hx.calculate()
             for key, candles in hx.get_candles().items():
                 tf = (scn.get("htf") if key == "default" else key) or None
                 want = cm.ref_resample(stream[:consumed], gen.tf_seconds(tf)) if tf else list(stream[:consumed])
@@ -255,7 +259,7 @@ def check_hexital_tfs(scn):
                 if scn.get("life") is not None:
                     want = cm.ref_trim(want, scn["life"])     # every manager keeps its own window newest - lifespan
                 got = [cm.candle_tuple(c) for c in candles]
-                if not cm.tuples_equal(got, [tuple(w) for w in want], exact=not scn.get("ha")):
+                if not cm.tuples_equal(got, [tuple(w) for w in want], exact=True):
                     return {"step": j, "timeframe": key, "clause": "hexital-timeframe", "observed": got[-4:], "expected": want[-4:],
                             "observed_len": len(got), "expected_len": len(want)}
     except Exception as e:
@@ -297,6 +301,8 @@ def case_hexital_tfs(rng, idx, params):
         # untrimmed, raw or recoverable - so it must still be the resampling of the whole stream)
         steps_n = 1 + len(scn["chunks"])
         scn["late"] = {str(i): rng.randrange(steps_n) for i in rng.sample(range(len(tfs)), rng.randint(1, len(tfs) - 1))}
+    if rng.random() < 0.3 and scn["chunks"]:
+        scn["maint"] = [[rng.randrange(len(scn["chunks"])), rng.choice(["purge", "recalculate"])] for _ in range(rng.choice([1, 1, 2]))]
     bad = check_hexital_tfs(scn)
     viol = None
     if bad:
